@@ -34,15 +34,6 @@ def fixture_for(nested, pool=()):
             for name in pool:
                 self.pool[name] = self.sched.spawn(name, self._serve_only)
 
-        def sleeps_past_publication(self, name, r):
-            # with nesting a thread waits for the result it created last (the INSPECT round trip inside a dispatch), which need
-            # not be the result of its own request
-            mine = self.created.get(name) or []
-            if not mine:
-                return False
-            last = mine[-1]
-            return bool(self.slot.__get__(last)) if self.slot is not None else False
-
         def _serve_only(self):
             try:
                 while True:
